@@ -35,30 +35,33 @@ func run(c *vkit.Collector, rng *vkit.Rng, budget int) {
 	s.siblings(budget)
 
 	for k := 0; k < 3000*budget; k++ {
-		in, class := g.union(60)
-		s.union1(in, class)
-		if k%4 == 0 {
-			s.denorm1(in, class)
-		}
+		s.guard("CellUnion.Normalize", func() {
+			in, class := g.union(60)
+			s.union1(in, class)
+			if k%4 == 0 {
+				s.denorm1(in, class)
+			}
+		})
 	}
-	s.invalidUnions(150 * budget)
-
+	s.guard("CellUnion.IsValid", func() { s.invalidUnions(150 * budget) })
 	for k := 0; k < 3000*budget; k++ {
-		x, y, class := g.pair(60)
-		s.pair1(x, y, class, k%3 == 0)
+		s.guard("CellUnion.binary", func() {
+			x, y, class := g.pair(60)
+			s.pair1(x, y, class, k%3 == 0)
+		})
 	}
 	for k := 0; k < 1500*budget; k++ {
-		s.range1()
+		s.guard("CellUnion.FromRange", s.range1)
 	}
 	for k := 0; k < 3000*budget; k++ {
-		s.maxTile1()
+		s.guard("CellID.MaxTile", s.maxTile1)
 	}
 	for k := 0; k < 500*budget; k++ {
-		s.index1()
+		s.guard("CellIndex", s.index1)
 	}
-	s.findFixed()
+	s.guard("s2intersect.Find", s.findFixed)
 	for k := 0; k < 800*budget; k++ {
-		s.find1()
+		s.guard("s2intersect.Find", s.find1)
 	}
 	t.flush()
 	c.Extra["correspondence_cases_by_category"] = t.used
